@@ -51,10 +51,19 @@ func (ex *Exec) get(st *State, name string) string {
 		return t
 	}
 	s := ex.svSort(name)
-	if st.epoch == 0 {
-		return ex.vc.declareOnce(name+"_0", s)
+	tn := name + "_0"
+	if st.epoch != 0 {
+		tn = fmt.Sprintf("%s_e%d", name, st.epoch)
 	}
-	return ex.vc.declareOnce(fmt.Sprintf("%s_e%d", name, st.epoch), s)
+	if !ex.vc.declared[tn] {
+		ex.vc.declareOnce(tn, s)
+		if st.epoch == 0 {
+			ex.assumeFieldInvAll(NewState(), name, tn) // entry version: relative to the entry allocation top
+		} else {
+			ex.assumeFieldInvAll(st, name, tn)
+		}
+	}
+	return tn
 }
 
 func (ex *Exec) set(st *State, name string, term string) {
@@ -64,6 +73,7 @@ func (ex *Exec) set(st *State, name string, term string) {
 func (ex *Exec) havoc(st *State, name string) string {
 	t := ex.vc.fresh(name, ex.svSort(name))
 	st.vars[name] = t
+	ex.assumeFieldInvAll(st, name, t)
 	return t
 }
 
